@@ -259,7 +259,7 @@ class World:
             return str(rng.choice([0, 1, 2, 5, 7, 12, 42, 256]))      # a string that reads like an integer
         if rng.random() < 0.1:
             s = rng.choice(['org.gnome.gedit', 'a, b', 'x(y)', 'wl_surface@3', 'nil', '12', 'new id a@1',
-                            'fd 3', 'array', '1.5', 'a=b', '[x]', 'B: 7c', ' lead', 'trail ', ', ', '), (']) + s[:3]
+                            'fd 3', 'array', '1.5', 'a=b', '[x]', 'B: 7c', ' lead', 'trail ', ', ', '), (', 'a -> b', ' -> ', '->']) + s[:3]
         return s
 
     def _gen_value(self, rng, kind):
@@ -298,6 +298,11 @@ class World:
                 cands = c.live(a.interface) if a.interface else c.live()
                 if a.allow_null and (not cands or rng.random() < 0.35):
                     args.append(GArg('o', None, iface=a.interface, name=a.name, allow_null=True))
+                elif cands and is_event and c.side == 'client' and not a.allow_null and rng.random() < 0.05:
+                    # a client that has already destroyed the object an event refers to: libwayland hands the event over
+                    # (and prints it) with NULL in its place although the signature has no `?`
+                    args.append(GArg('o', None, iface=a.interface, name=a.name, allow_null=False))
+                    self.zombie_nils = getattr(self, 'zombie_nils', 0) + 1
                 elif cands:
                     args.append(GArg('o', cands[rng.randrange(len(cands))], iface=a.interface, name=a.name,
                                      allow_null=a.allow_null))
